@@ -75,13 +75,13 @@ def h_merge(ctx, chroms, gene=False, bp_sym=False):
         try:
             out = ga.merge(bp=bp)
         except Exception as exc:
-            ctx.claim(False, f"merge raised {type(exc).__name__}")
+            claim_raised(ctx, "merge", exc)
             return
     else:
         try:
             out = ga.merge()
         except Exception as exc:
-            ctx.claim(False, f"merge raised {type(exc).__name__}")
+            claim_raised(ctx, "merge", exc)
             return
     orows = out_rows(out)
     ctx.observe("rows", [list(r[:3]) for r in orows])
@@ -133,7 +133,7 @@ def h_flatten(ctx, chroms, gene=False):
     try:
         out = ga.flatten()
     except Exception as exc:
-        ctx.claim(False, f"flatten raised {type(exc).__name__}")
+        claim_raised(ctx, "flatten", exc)
         return
     orows = out_rows(out)
     ctx.observe("rows", [list(r[:3]) for r in orows])
@@ -177,7 +177,7 @@ def h_subtract(ctx, a_chroms, b_chroms, case=None):
     try:
         out = a.subtract(b)
     except Exception as exc:
-        ctx.claim(False, f"subtract raised {type(exc).__name__}")
+        claim_raised(ctx, "subtract", exc)
         return
     orows = out_rows(out)
     ctx.observe("rows", [list(r) for r in orows])
@@ -240,7 +240,7 @@ def h_intersect_trim(ctx, a_chroms, b_chroms, case=None):
         ctx.cover("empty-intersection")
         return
     except Exception as exc:
-        ctx.claim(False, f"intersection raised {type(exc).__name__}")
+        claim_raised(ctx, "intersection", exc)
         return
     orows = out_rows(out)
     ctx.observe("rows", [list(r) for r in orows])
@@ -285,7 +285,7 @@ def h_subdivide(ctx, chroms, avg, mn, m=40):
     try:
         out = ga.subdivide(avg, mn)
     except Exception as exc:
-        ctx.claim(False, f"subdivide raised {type(exc).__name__}")
+        claim_raised(ctx, "subdivide", exc)
         return
     orows = out_rows(out)
     ctx.observe("rows", [list(r) for r in orows])
@@ -363,7 +363,7 @@ def h_resize(ctx, chroms, sizes):
     try:
         out = ga.resize_ranges(bp, chrom_sizes)
     except Exception as exc:
-        ctx.claim(False, f"resize_ranges raised {type(exc).__name__}")
+        claim_raised(ctx, "resize_ranges", exc)
         return
     orows = out_rows(out)
     ctx.observe("rows", [list(r) for r in orows])
